@@ -10,7 +10,11 @@ def main():
     with common.BuildLock():
         common.ensure_makefile()
     for prop in sorted(md.CLAIMED):
-        obs = common.build_property(prop, jobs=16)
+        import importlib
+        mod = importlib.import_module("harness.props." + prop.lower())
+        obs = common.build_property(prop, jobs=16, extract=getattr(mod, "EXTRACT", True),
+                                    runners=getattr(mod, "RUNNERS", ()),
+                                                  facts=getattr(mod, "FACTS", ("tables", "parser")))
         for o in obs:
             if not o.ok:
                 bad += 1
